@@ -986,17 +986,37 @@ impl Rasn {
                     .or_else(|| ObjectIdentifierArc::well_known(arc.name.as_ref(), None))
             })
             .and_then(|root| u8::try_from(root).ok());
-        let resolved_well_known_arcs = oid
-            .0
-            .clone()
-            .into_iter()
-            .map(|mut arc| {
-                if arc.number.is_none() {
-                    arc.number = ObjectIdentifierArc::well_known(arc.name.as_ref(), root);
-                }
-                arc
-            })
-            .collect::<Vec<_>>();
+        let mut resolved_well_known_arcs: Vec<ObjectIdentifierArc> =
+            Vec::with_capacity(oid.0.len());
+        for mut arc in oid.0.clone() {
+            if arc.number.is_none() {
+                arc.number =
+                    ObjectIdentifierArc::well_known(arc.name.as_ref(), root).or_else(|| {
+                        // Rec. ITU-T X.660 A.2: the arcs below itu-t(0) recommendation(0)
+                        // are identified by the letters a(1) to z(26)
+                        let below_recommendation = matches!(
+                            resolved_well_known_arcs.as_slice(),
+                            [
+                                ObjectIdentifierArc {
+                                    number: Some(0),
+                                    ..
+                                },
+                                ObjectIdentifierArc {
+                                    number: Some(0),
+                                    ..
+                                }
+                            ]
+                        );
+                        match arc.name.as_deref().map(str::as_bytes) {
+                            Some([letter @ b'a'..=b'z']) if below_recommendation => {
+                                Some((letter - b'a' + 1) as u128)
+                            }
+                            _ => None,
+                        }
+                    });
+            }
+            resolved_well_known_arcs.push(arc);
+        }
         let contains_reference = resolved_well_known_arcs
             .iter()
             .any(|arc| arc.number.is_none());
